@@ -23,7 +23,7 @@
 (* the concrete message and runs the real interceptor code on it.           *)
 (***************************************************************************)
 EXTENDS Integers, Sequences, FiniteSets, TLC, Json, SchemaGen
-CONSTANTS MaxRepeat, MaxDepth, Want    \* Want \subseteq {"ns", "sa"}
+CONSTANTS MaxRepeat, MaxDepth, Want    \* Want \subseteq {"ns", "sa", "fail"}
 HistoryEvent == "temporal.api.history.v1.HistoryEvent"
 History == "temporal.api.history.v1.History"
 NamespaceInfo == "temporal.api.namespace.v1.NamespaceInfo"
@@ -61,9 +61,15 @@ StopSA(f) ==
   /\ leaf' = (IF f.go \in SearchAttributeFieldNames THEN "sa-recognised" ELSE "sa-unrecognised")
   /\ path' = Append(path, f.name)
   /\ UNCHANGED <<root, node, types, reached, inSkipped, inBlob>>
+\* C18: a failure message (legacy struct graph): the generated repair visitor must reach it
+StopFail(f) ==
+  /\ leaf = "" /\ "fail" \in Want /\ f.oFail
+  /\ leaf' = "fail" /\ path' = Append(path, f.name)
+  /\ UNCHANGED <<root, node, types, reached, inSkipped, inBlob>>
 Emit == (leaf' # "") => PrintT(ToJson([root |-> root, path |-> path', leaf |-> leaf', reached |-> reached',
                                         skipped |-> inSkipped', inblob |-> inBlob', card |-> "x"]))
-Next == (\E i \in 1..Len(Fields[node]) : Descend(Fields[node][i]) \/ StopNS(Fields[node][i]) \/ StopSA(Fields[node][i])) /\ Emit
+Next == (\E i \in 1..Len(Fields[node]) : Descend(Fields[node][i]) \/ StopNS(Fields[node][i]) \/ StopSA(Fields[node][i])
+                                        \/ StopFail(Fields[node][i])) /\ Emit
 Spec == Init /\ [][Next]_vars
 
 \* C12 on the tables (design level): a namespace leaf is reached, recognised and not hidden by the skip shortcut.
